@@ -472,7 +472,27 @@ def run(ctx):
     ctx.count('reachable functions', len(reach))
     ctx.floor('C02', 'decode entry points', len(roots), 400)
     ctx.rules_run.append('F-PANIC: every potential panic site (Assert terminators, panicking std callees, diverging calls) reachable from the decoding entry points is discharged by the range analysis or a justified table row')
-    f_panic(ctx, prog, reach, 'decode')
+    # the checked input primitives (and private helpers only they call) carry their own panic obligation: T-PRIM interprets each of
+    # them whole, with the bounds check's outcome as an assumption, and reports any assert left open (T-PRIM|arith)
+    prim_paths = set(DEC + n_ for n_ in ('current', 'peek', 'read', 'read_slice'))
+    callers = {}
+    for inst in prog.insts.values():
+        if inst['krate'] != 'minicbor':
+            continue
+        for bi, t in mir.iter_calls(inst['body']):
+            f = t.get('f') or {}
+            cp = f.get('rpath') or f.get('path')
+            if cp and cp != inst['path']:
+                callers.setdefault(cp, set()).add(inst['path'])
+    grew = True
+    only_prims = set(prim_paths)
+    while grew:
+        grew = False
+        for cp, cs in callers.items():
+            if cp not in only_prims and cp.startswith('minicbor::') and cs and cs <= only_prims:
+                only_prims.add(cp)
+                grew = True
+    f_panic(ctx, prog, set(k for k in reach if prog.get(k)['path'] not in only_prims), 'decode')
     ctx.rules_run.append('T-PRIM: input primitives: Ok <=> bounds check succeeded, position advanced by exactly the bytes returned; error = EndOfInput with position unchanged')
     t_prim(ctx, prog)
     ctx.rules_run.append('F-UNSAFE: unsafe blocks = reviewed set; ArrayVec typestate (write before len++, read under len == N then forget, drop on error exits)')
